@@ -134,6 +134,8 @@ type ctx struct {
 	wrongs  int // refused attempts that reached the check since the last issue
 	accepts int // accepted attempts since the last issue
 
+	concCalls int64 // verifications done by the concurrent stream
+
 	noShrink bool
 	shrunk   map[string]bool
 }
@@ -534,6 +536,8 @@ func (c *ctx) runOp1(line string) string {
 	switch ws[0] {
 	case "pc":
 		return c.pcOp(ws, line)
+	case "conc":
+		return c.concOp(ws, line)
 	case "hexdec":
 		s, ok := kvHex(ws, "s")
 		if !ok {
@@ -987,7 +991,8 @@ func main() {
 	rep := hx.NewReport("C16", f)
 	rep.Rule = "op lines: issue/verify of signed blobs, hex blobs, sessions, gate tokens, time tokens, RSA time blocks, challenges, " +
 		"HS256/RS256/self JWTs with every single-bit mutation, every prefix and byte-class extensions of issued tokens, clocks at " +
-		"each boundary -2..+2 ns and +-1 s, claim templates over all field subsets, passcode histories up to 16 ops; " +
+		"each boundary -2..+2 ns and +-1 s, claim templates over all field subsets, passcode histories up to 16 ops, " +
+		"and `conc` lines: 4..16 goroutines verifying genuine tokens and forgeries on one shared Signer/Sessions/TimeSigner/Gate/HS256; " +
 		"distinct = distinct op line (a passcode op counts with its history prefix); non-trivial = every op except codec-only lines"
 	c := newCtx(rep, hx.NewJournal(f.Work))
 
@@ -1044,6 +1049,7 @@ func main() {
 		g := newGen(hx.NewRand(f.Seed), f.Thorough(), rep, c, process)
 		g.all()
 	}
+	rep.Distribution["concurrent_verifications"] = c.concCalls
 	c.j.Clear()
 	for i := 0; i < len(sampleOps); i += 1 + len(sampleOps)/10 {
 		rep.Sample(map[string]string{"op": sampleOps[i], "impl": sampleOut[i]})
